@@ -1,5 +1,7 @@
 import GrinVerif.Lemmas.PowRoom
 import GrinVerif.Lemmas.PowUSound
+import GrinVerif.Lemmas.PowRoodCycle
+import GrinVerif.Lemmas.PowRoomComplete
 /-! # C05 — PoW verification accepts exactly the simple cycles of the header-seeded graph
 
 All theorems are about the verifier models of `Model/Pow.lean` (transliterations of the five Rust
@@ -41,6 +43,41 @@ theorem verifyCuckaroom_sound (P : Params) (ep : Nat → Nat × Nat) (ns : List 
       obtain ⟨tr, htr, hm⟩ := roomWalk_trace P ns.length s _ _ _ _ _ hw
       refine ⟨hl, (ascChain_spec ns none hasc).1, hmask, tr, ?_⟩
       exact room_cycle P ep ns s inv tr htr (by omega)
+
+/-- **Completeness of the Cuckaroom verifier**: every simple directed cycle through all edges,
+presented as `proofsize > 0` strictly ascending nonces within the edge mask, is accepted (in
+particular the early xor test never rejects a real cycle, the bucket hash never hides a match, and
+no loop of the model runs out of fuel). -/
+theorem verifyCuckaroom_complete (P : Params) (ep : Nat → Nat × Nat) (ns : List Nat)
+    (hps : 0 < P.proofsize) (hlen : ns.length = P.proofsize) (hasc : Ascending ns)
+    (hmask : ∀ x ∈ ns, x ≤ P.edgeMask) (hc : IsProofCycleCuckaroom (ns.map ep)) :
+    verifyCuckaroom P ep ns = .ok () := by
+  obtain ⟨c, hc⟩ := hc
+  have hL : 0 < ns.length := by omega
+  obtain ⟨s, hb, hxf, hxt⟩ := roomBuild_complete P ep ns 0 none (RoomSt.init ns.length) hmask
+    (ascChain_of_pairwise ns none hasc (fun y hy => by cases hy))
+  obtain ⟨inv, _, _⟩ := roomBuild_spec P ep ns ns [] none _ s (by simp) (roomInv_init P ep ns) hb
+  have hx : s.xf = s.xt := by
+    rw [hxf, hxt, room_xor_eq ep ns c hc hL]; rfl
+  obtain ⟨tr, htr, htl⟩ := room_trace_of_cycle P ep ns s inv c hc hL
+  have hw := roomWalk_complete P ns.length s tr 0 htr ns.length 0 (ns.length + 1) (fun _ => false) 0
+    (by omega) hL (by omega) (fun x hx => by cases hx)
+  rw [htr.head] at hw
+  unfold verifyCuckaroom
+  simp only [hlen, ne_eq, not_true_eq_false, if_false]
+  rw [← hlen, hb]
+  simp only [hx, not_true_eq_false, if_false]
+  rw [hw]
+  simp
+
+/-- **Cuckaroom: verification accepts exactly the simple directed cycles.** -/
+theorem verifyCuckaroom_iff (P : Params) (ep : Nat → Nat × Nat) (ns : List Nat)
+    (hps : 0 < P.proofsize) :
+    verifyCuckaroom P ep ns = .ok () ↔
+      (ns.length = P.proofsize ∧ Ascending ns ∧ (∀ x ∈ ns, x ≤ P.edgeMask) ∧
+        IsProofCycleCuckaroom (ns.map ep)) :=
+  ⟨verifyCuckaroom_sound P ep ns,
+   fun ⟨h1, h2, h3, h4⟩ => verifyCuckaroom_complete P ep ns hps h1 h2 h3 h4⟩
 
 /-- non-vacuity: a directed 4-cycle `0→1→2→3→0` is accepted -/
 example : verifyCuckaroom ⟨4, 3, 4, fun x => x % 8⟩ (fun n => (n, (n + 1) % 4)) [0, 1, 2, 3] = .ok () := by
@@ -140,5 +177,71 @@ the same, harness case `twohalves-ctx4`; `pow::verify_size` never builds such a 
 example : verifyCuckarooz ⟨4, 7, 2, fun x => x % 8⟩
     (fun n => match n with | 0 => (1, 2) | 2 => (1, 2) | 5 => (3, 4) | 7 => (3, 4) | _ => (0, 0))
     [0, 2, 5, 7] = .ok () := by decide +kernel
+
+/-! ## Cuckarood -/
+
+/-- **Soundness of the Cuckarood verifier** (as repaired in /repo df0049399): `Ok` ⟹ exactly
+`proofsize` nonces, strictly ascending, all `≤ edge_mask`, as many even as odd nonces, and the edges
+form one simple cycle through all of them in which consecutive edges have opposite direction bits.
+Unlike the other variants this needs one property of the bucket hash: it keeps the lowest bit
+(`(node << 1 | dir) & mask` with `mask` odd does) — the direction bit is part of the hashed value
+and the search relies on it to separate the two directions. -/
+theorem verifyCuckarood_sound (P : Params) (ep : Nat → Nat × Nat) (ns : List Nat)
+    (hbk : ∀ x, P.bk x % 2 = x % 2)
+    (h : verifyCuckarood P ep ns = .ok ()) :
+    ns.length = P.proofsize ∧ Ascending ns ∧ (∀ x ∈ ns, x ≤ P.edgeMask) ∧
+      IsProofCycleCuckarood (ns.map (fun x => (x % 2, ep x))) := by
+  unfold verifyCuckarood at h
+  by_cases hl : ns.length = P.proofsize
+  case neg => simp [hl] at h
+  simp only [hl, ne_eq, not_true_eq_false, if_false] at h
+  rw [← hl] at h
+  cases hb : roodBuild P ep ns.length ns none (RoodSt.init ns.length) with
+  | error e => simp [hb] at h
+  | ok s =>
+    simp only [hb] at h
+    obtain ⟨inv, hmask, hasc⟩ :=
+      roodBuild_spec P ep ns ns [] none _ s (by simp) (roodInv_init P ep ns) hb
+    by_cases hx : (s.x0 ||| s.x1) = 0
+    case neg => simp [hx] at h
+    simp only [hx, not_true_eq_false, if_false] at h
+    cases hw : roodWalk (roodStep P ns.length s) ns.length (ns.length + 1) 0 0 with
+    | error e => simp [hw] at h
+    | ok n =>
+      simp only [hw] at h
+      by_cases hn : n = ns.length
+      case neg => simp [hn] at h
+      obtain ⟨tr, htr, hm⟩ := roodWalk_trace _ _ _ _ _ _ hw
+      exact ⟨hl, (ascChain_spec ns none hasc).1, hmask,
+        rood_cycle P ep ns s hbk inv tr htr (by omega)⟩
+
+/-- the real bucket hash `x & mask`, `mask = u64::MAX >> leading_zeros(size)`, keeps the lowest
+bit for every proof size `> 0` -/
+theorem bucketMask_low_bit (size : Nat) (hs : 0 < size) (x : Nat) :
+    (x &&& bucketMask size) % 2 = x % 2 := by
+  unfold bucketMask
+  rw [Nat.and_two_pow_sub_one_eq_mod]
+  have hb : 1 ≤ bitLen size := by
+    cases size with
+    | zero => omega
+    | succ n => rw [bitLen]; omega
+  obtain ⟨k, hk⟩ : ∃ k, bitLen size = k + 1 := ⟨bitLen size - 1, by omega⟩
+  rw [hk, Nat.pow_succ]
+  exact Nat.mod_mul_left_mod x (2^k) 2
+
+/-- non-vacuity: a 4-cycle alternating even / odd nonces is accepted by Cuckarood -/
+example : verifyCuckarood ⟨4, 7, 4, fun x => x % 8⟩
+    (fun n => match n with | 0 => (5, 9) | 3 => (6, 9) | 4 => (6, 3) | 7 => (5, 3) | _ => (0, 0))
+    [0, 3, 4, 7] = .ok () := by decide +kernel
+
+/-- The inputs on which the *unrepaired* Cuckarood walk never came back (a `u` node shared by two
+direction-0 edges and one direction-1 edge: the step map is not injective, the walk falls into
+a loop that excludes slot 0) are now refused after `size` steps. -/
+example : verifyCuckarood ⟨8, 15, 8, fun x => x % 16⟩
+    (fun n => match n with
+      | 0 => (1, 1) | 2 => (2, 2) | 4 => (2, 3) | 6 => (2, 1)
+      | 1 => (1, 2) | 3 => (2, 3) | 5 => (3, 4) | 7 => (3, 4)
+      | _ => (0, 0))
+    [0, 1, 2, 3, 4, 5, 6, 7] = .error .noClose := by decide +kernel
 
 end GV.Props.C05
